@@ -121,3 +121,18 @@ Properties/C13.vos Properties/C13.vok Properties/C13.required_vos: Properties/C1
 Proofs/C13/Config.vo Proofs/C13/Config.glob Proofs/C13/Config.v.beautified Proofs/C13/Config.required_vo: Proofs/C13/Config.v Engine/Regex.vo Gen/Patterns.vo PyRt/Str.vo Gen/Tables.vo Model/Trs.vo Model/Config.vo
 Proofs/C13/Config.vio: Proofs/C13/Config.v Engine/Regex.vio Gen/Patterns.vio PyRt/Str.vio Gen/Tables.vio Model/Trs.vio Model/Config.vio
 Proofs/C13/Config.vos Proofs/C13/Config.vok Proofs/C13/Config.required_vos: Proofs/C13/Config.v Engine/Regex.vos Gen/Patterns.vos PyRt/Str.vos Gen/Tables.vos Model/Trs.vos Model/Config.vos
+Model/Export.vo Model/Export.glob Model/Export.v.beautified Model/Export.required_vo: Model/Export.v Engine/Regex.vo PyRt/Str.vo Gen/Tables.vo Model/Trs.vo
+Model/Export.vio: Model/Export.v Engine/Regex.vio PyRt/Str.vio Gen/Tables.vio Model/Trs.vio
+Model/Export.vos Model/Export.vok Model/Export.required_vos: Model/Export.v Engine/Regex.vos PyRt/Str.vos Gen/Tables.vos Model/Trs.vos
+Proofs/C19/Export.vo Proofs/C19/Export.glob Proofs/C19/Export.v.beautified Proofs/C19/Export.required_vo: Proofs/C19/Export.v Engine/Regex.vo PyRt/Str.vo Gen/Tables.vo Model/Trs.vo Model/Export.vo
+Proofs/C19/Export.vio: Proofs/C19/Export.v Engine/Regex.vio PyRt/Str.vio Gen/Tables.vio Model/Trs.vio Model/Export.vio
+Proofs/C19/Export.vos Proofs/C19/Export.vok Proofs/C19/Export.required_vos: Proofs/C19/Export.v Engine/Regex.vos PyRt/Str.vos Gen/Tables.vos Model/Trs.vos Model/Export.vos
+Properties/C19.vo Properties/C19.glob Properties/C19.v.beautified Properties/C19.required_vo: Properties/C19.v Engine/Regex.vo PyRt/Str.vo Gen/Tables.vo Model/Trs.vo Model/Export.vo Proofs/C19/Export.vo
+Properties/C19.vio: Properties/C19.v Engine/Regex.vio PyRt/Str.vio Gen/Tables.vio Model/Trs.vio Model/Export.vio Proofs/C19/Export.vio
+Properties/C19.vos Properties/C19.vok Properties/C19.required_vos: Properties/C19.v Engine/Regex.vos PyRt/Str.vos Gen/Tables.vos Model/Trs.vos Model/Export.vos Proofs/C19/Export.vos
+Extract/DispExport.vo Extract/DispExport.glob Extract/DispExport.v.beautified Extract/DispExport.required_vo: Extract/DispExport.v Engine/Regex.vo PyRt/Str.vo Extract/Val.vo Extract/DispBase.vo Extract/DispTrs.vo Extract/DispContainers.vo Model/Trs.vo Model/Export.vo
+Extract/DispExport.vio: Extract/DispExport.v Engine/Regex.vio PyRt/Str.vio Extract/Val.vio Extract/DispBase.vio Extract/DispTrs.vio Extract/DispContainers.vio Model/Trs.vio Model/Export.vio
+Extract/DispExport.vos Extract/DispExport.vok Extract/DispExport.required_vos: Extract/DispExport.v Engine/Regex.vos PyRt/Str.vos Extract/Val.vos Extract/DispBase.vos Extract/DispTrs.vos Extract/DispContainers.vos Model/Trs.vos Model/Export.vos
+Extract/Drv_export.vo Extract/Drv_export.glob Extract/Drv_export.v.beautified Extract/Drv_export.required_vo: Extract/Drv_export.v Engine/Regex.vo Extract/Val.vo Extract/DispBase.vo Extract/DispExport.vo
+Extract/Drv_export.vio: Extract/Drv_export.v Engine/Regex.vio Extract/Val.vio Extract/DispBase.vio Extract/DispExport.vio
+Extract/Drv_export.vos Extract/Drv_export.vok Extract/Drv_export.required_vos: Extract/Drv_export.v Engine/Regex.vos Extract/Val.vos Extract/DispBase.vos Extract/DispExport.vos
